@@ -13,6 +13,8 @@
 (*    JS     in the subset, Go = spec, JS differs  (JS left the language)  *)
 (*    GO     in the subset, JS = spec, Go differs  (Go left the language)  *)
 (*    ALL    in the subset, Go # JS and neither equals the spec            *)
+(*    GOJS   a "direct" line (float outside the dyadic model, class in     *)
+(*           the subset): Go # JS; the spec has no text of its own         *)
 (*    SPEC   in the subset, Go = JS but both differ from the spec          *)
 (*           (agreement holds: not a C04 violation; a C01/C02 matter)      *)
 (* Outputs are compared up to the spelling of character references.        *)
@@ -124,8 +126,17 @@ Run == /\ l <= Len(Trace) /\ ~Terminated
 
 SameObs(o, err, text) == o.err = err /\ (err \/ C4SameText(o.out, text))
 
+IsDirect(r) == "direct" \in DOMAIN r
+
+\* a line judged without the reference interpreter (value classes the model
+\* has no text for): Go against JS only, where the class is in the subset
+DirectVerdict(r) ==
+  IF ~FloatClassInSubset(r.cls) THEN "OUT"
+  ELSE IF r.go.err = r.js.err /\ (r.go.err \/ C4SameText(r.go.out, r.js.out)) THEN "OK" ELSE "GOJS"
+
 Verdict(r) ==
-  IF status # "ok" THEN "OUT"
+  IF IsDirect(r) THEN DirectVerdict(r)
+  ELSE IF status # "ok" THEN "OUT"
   ELSE IF why # "" THEN "OUT"
   ELSE LET goOK == SameObs(r.go, FALSE, out)
            jsOK == SameObs(r.js, FALSE, out)
@@ -135,13 +146,13 @@ Verdict(r) ==
        ELSE IF jsOK THEN "GO"
        ELSE IF same THEN "SPEC" ELSE "ALL"
 
-Reason == IF status = "err" THEN "spec-err" ELSE IF status = "unspec" THEN "spec-unspec" ELSE why
+Reason == IF IsDirect(Trace[l]) THEN "float-class" ELSE IF status = "err" THEN "spec-err" ELSE IF status = "unspec" THEN "spec-unspec" ELSE why
 
 Judge == /\ l <= Len(Trace) /\ Terminated
          /\ l' = l + 1
          /\ LET vd == Verdict(Trace[l]) IN
             /\ nIn' = nIn + (IF vd = "OUT" THEN 0 ELSE 1)
-            /\ nViol' = nViol + (IF vd \in {"JS", "GO", "ALL"} THEN 1 ELSE 0)
+            /\ nViol' = nViol + (IF vd \in {"JS", "GO", "ALL", "GOJS"} THEN 1 ELSE 0)
             /\ IF vd = "OK" THEN TRUE
                ELSE IF vd = "OUT" THEN PrintT(<<"OUT", l, Reason>>)
                ELSE PrintT(<<"BAD", l, vd, ToJson([out |-> out])>>)
